@@ -101,13 +101,21 @@ impl StepOracle for C05Oracle {
             let users: Vec<String> = w.holders().iter().map(|h| h.to_string()).chain((0..3).map(|i| fresh_addr(i).to_string())).chain(std::iter::once(w.owner.to_string())).collect();
             let lp_key = asset_key(&lp);
             let sinks: Vec<(String, i128)> = actual_deltas(cx.rec).into_iter().filter(|((acc, a), _)| *a == lp_key && acc != receiver && *acc != caller).map(|((acc, _), d)| (acc, d)).collect();
-            if sinks.len() != 1 || sinks[0].1 != 1 || users.contains(&sinks[0].0) {
+            // (the chosen receiver may itself be such an address - the LP token contract, say: then the unit and
+            // the share arrive at the same place and there is no second address to look for)
+            let got_at_receiver = actual_deltas(cx.rec).get(&(receiver.clone(), lp_key.clone())).copied().unwrap_or(0);
+            if sinks.is_empty() && !users.contains(receiver) && *receiver != caller && got_at_receiver == m as i128 {
+                classes.push("p:first-provision-receiver-is-the-unspendable-address");
+                add_delta(&mut expected, receiver, &lp, m as i128);
+                self.nontrivial += 1;
+            } else if sinks.len() != 1 || sinks[0].1 != 1 || users.contains(&sinks[0].0) {
                 return Verdict::Fail(format!(
                     "step {}: first provision: besides the receiver, LP balances changed as {:?}; exactly one unit must go to one address that can never spend it", cx.index, sinks));
+            } else {
+                add_delta(&mut expected, &sinks[0].0, &lp, 1);
+                add_delta(&mut expected, receiver, &lp, m as i128 - 1);
+                self.nontrivial += 1;
             }
-            add_delta(&mut expected, &sinks[0].0, &lp, 1);
-            add_delta(&mut expected, receiver, &lp, m as i128 - 1);
-            self.nontrivial += 1;
         }
         let actual = actual_deltas(cx.rec);
         if let Some(dd) = diff_deltas(&expected, &actual) {
